@@ -401,4 +401,53 @@ def specAdjSrc : LinOpVariant → AdjSrc
 /-- number of `jit()` calls of a history (the constructor option counts as one) -/
 def jitCount (jit : Bool) (ops : List LinOpOp) : Nat := (if jit then 1 else 0) + (ops.filter (· == .jit)).length
 
+/-! ## 7. attributes read at trace time: cached traces and parameter updates -/
+
+/-- one place of the scico sources where a traced function is created (written by `harness/cache_attrs.py`) -/
+structure TraceSite where
+  file : String
+  cls : String
+  name : String
+  kind : String            -- perObjectJit | storedBranch | staticJit | perCall | inlineBranch
+  reads : List String      -- first-level `self` attributes read inside the traced function
+deriving DecidableEq, Repr
+
+/-- kinds whose trace is kept and re-used for a signature already seen -/
+def TraceSite.cached (s : TraceSite) : Bool :=
+  s.kind == "perObjectJit" || s.kind == "storedBranch" || s.kind == "staticJit"
+
+/-- (class, site, attribute) for every attribute of `attrs` (a list of (class, attribute)) that a cached trace of that
+    very class reads -/
+def traceTimeParams (sites : List TraceSite) (attrs : List (String × String)) : List (String × String × String) :=
+  sites.flatMap (fun s =>
+    if s.cached then (s.reads.filter (fun a => attrs.contains (s.cls, a))).map (fun a => (s.cls, s.name, a)) else [])
+
+/-- An object with a callable whose value depends on attributes.  `traced a = true`: attribute `a` is read when a
+    signature is first traced (and frozen in the cached trace); otherwise it is read at every call.
+    `cache` = for every signature already seen, the attribute valuation at the moment of its first call. -/
+structure TracedObj (ν : Type) where
+  attrs : String → ν
+  cache : List (Nat × (String → ν))
+
+inductive TraceOp (ν : Type) where
+  | set (a : String) (v : ν)     -- `obj.a = v`
+  | call (sig : Nat)             -- a call with an input of signature `sig` (shape, dtype, block structure)
+
+/-- the valuation a call with signature `sig` computes with -/
+def TracedObj.effective {ν : Type} (traced : String → Bool) (o : TracedObj ν) (sig : Nat) : String → ν :=
+  match o.cache.find? (fun e => e.1 == sig) with
+  | none => o.attrs
+  | some e => fun a => if traced a then e.2 a else o.attrs a
+
+def TracedObj.step {ν : Type} (o : TracedObj ν) : TraceOp ν → TracedObj ν
+  | .set a v => { o with attrs := fun b => if b = a then v else o.attrs b }
+  | .call sig =>
+    match o.cache.find? (fun e => e.1 == sig) with
+    | none => { o with cache := o.cache ++ [(sig, o.attrs)] }
+    | some _ => o
+
+def TracedObj.run {ν : Type} (o : TracedObj ν) : List (TraceOp ν) → TracedObj ν
+  | [] => o
+  | op :: ops => TracedObj.run (o.step op) ops
+
 end Scico.Cache
